@@ -798,7 +798,9 @@ func c04Conj(r *core.Run) {
 				}
 				// a repository helper that compares one part of the first instruction with the matching part of
 				// the second (its last two arguments come from the two sides) and answers with a bool
-				if g := core.StaticCallee(&x.Call); g != nil && p.IsProdFunc(g) && len(x.Call.Args) >= 2 {
+				// (only where the function itself is handed the parts pairwise — a function that is handed whole
+				// instructions may legitimately try a second pairing, e.g. exchanged operands of a commutative operation)
+				if g := core.StaticCallee(&x.Call); g != nil && p.IsProdFunc(g) && len(x.Call.Args) >= 2 && len(ps) >= 4 {
 					if grt := resultTypes(g); len(grt) == 1 && grt[0].String() == "bool" {
 						args := x.Call.Args
 						a, b := side(args[len(args)-2]), side(args[len(args)-1])
